@@ -200,6 +200,9 @@ class ResponseHandler(BaseProtocol, DataQueue[tuple[RawResponseMessage, StreamRe
         self._payload = None
         self._payload_parser = None
         self._reading_paused = False
+        # feed_eof() above may have resumed a paused reader, which re-arms the
+        # read timeout: nothing more can arrive on a lost connection.
+        self._drop_timeout()
 
         super().connection_lost(reraised_exc)
 
